@@ -38,7 +38,10 @@ def run_one(check, scn):
         res = check.run(scn)
     except Exception as e:  # noqa: BLE001
         frames = tb.extract_tb(e.__traceback__)
-        last_harness = max((i for i, f in enumerate(frames) if "/dsim/" in f.filename), default=-1)
+        # (frames of the simulated environment - dsim/seams.py raising an OS error the way
+        # the real file system would - are the environment's, not the harness's, when the
+        # code under test called them)
+        last_harness = max((i for i, f in enumerate(frames) if "/dsim/" in f.filename and not f.filename.endswith("/seams.py")), default=-1)
         below = [f for f in frames[last_harness + 1:] if f.filename.startswith(REPO.rstrip("/") + "/")]
         if not below:
             raise
